@@ -82,6 +82,33 @@ func runC01(c *core.Ctx) {
 			}
 		})
 	}
+	// the sender touches the queue / transport only while it owns the flag: after Store(idle) no
+	// dequeue or transport write is reachable except through the true edge of a new CAS
+	core.AllInstrs(S, func(in ssa.Instruction) {
+		if !e.runningRelease(in) {
+			return
+		}
+		c.Instance("R1")
+		acquired := map[[2]*ssa.BasicBlock]bool{}
+		core.AllInstrs(S, func(x ssa.Instruction) {
+			if e.runningAcquire(x) {
+				for _, ts := range e.trueEdgesOf(x.(ssa.Value)) {
+					for _, pb := range ts.Preds {
+						acquired[[2]*ssa.BasicBlock{pb, ts}] = true
+					}
+				}
+			}
+		})
+		tgt, path := core.Search(in, nil, func(x ssa.Instruction) core.Action {
+			if e.queueRecv(x) || e.transportInvoke(x, "Write", "Writev", "Flush") {
+				return core.Target
+			}
+			return core.Continue
+		}, func(a, b *ssa.BasicBlock) bool { return !acquired[[2]*ssa.BasicBlock{a, b}] })
+		c.Check(tgt == nil, "R1", "sender-owns-flag/"+core.FName(S), p.InstrPos(in),
+			"after releasing the flag the sender dequeues / writes again only through a successful CAS",
+			"after Store(running, idle) the sender can dequeue or write to the transport without re-acquiring the flag (two senders may run: batches reordered, lost or duplicated)", p.PathString(path, tgt)...)
+	})
 	// any other reference to the sender as a value (escaping method value) is not understood
 	for _, fn := range p.Funcs {
 		core.AllInstrs(fn, func(in ssa.Instruction) {
